@@ -121,7 +121,17 @@ fn oracle(s: &S, ops: &[Upd]) -> Verdict {
     let abs_only = !c_ops.is_empty() && c_ops.iter().all(|u| matches!(u.2, Upd::Abs(_)));
     let inc_only = c_ops.iter().all(|u| matches!(u.2, Upd::Inc(_)));
     let first_abs_overlaps_flush = abs_only && h.flushes.iter().any(|f| overlaps((c_ops[0].0, c_ops[0].1), (f.0, f.1)));
-    let sig = |base: &str| if first_abs_overlaps_flush { format!("absolute-rebase-vs-flush:{}", base) } else { base.to_string() };
+    // The recorded finding (known_findings.json) is narrow: a flush that overlaps the call switching the counter to
+    // absolute mode reads the re-based `last` with the old `current` (0) and sends exactly 0 - first (mod 2^64); the
+    // deltas still add up modulo 2^64. Anything else that goes wrong in that window is a different violation.
+    let wrapped_rebase = first_abs_overlaps_flush && {
+        let first = if let Upd::Abs(v) = c_ops[0].2 { v } else { 0 };
+        let last = if let Upd::Abs(v) = c_ops[c_ops.len() - 1].2 { v } else { 0 };
+        let wsum = sends.iter().flatten().fold(0u64, |a, v| a.wrapping_add(*v));
+        let hit = h.flushes.iter().enumerate().any(|(fi, f)| overlaps((c_ops[0].0, c_ops[0].1), (f.0, f.1)) && sends[fi] == Some(0u64.wrapping_sub(first)));
+        hit && first != 0 && wsum == last - first
+    };
+    let sig = |base: &str| if wrapped_rebase { "absolute-rebase-vs-flush:wrapped-delta-sent".to_string() } else { base.to_string() };
     let describe = || format!("sends per flush {:?}; log {:?}", sends, s.log.get().iter().map(|e| match e { Ev::UpdCall(i) => format!("call{}", i), Ev::UpdRet(i) => format!("ret{}", i), Ev::FlushCall(i) => format!("F{}(", i), Ev::FlushRet(i, _) => format!(")F{}", i) }).collect::<Vec<_>>().join(" "));
     if inc_only || abs_only {
         let total: u128 = sends.iter().flatten().map(|v| *v as u128).sum();
